@@ -259,10 +259,97 @@ def sysStep (s : SysSt) (w : List String) (res : String) : SysSt × String :=
   | "probe" => if s.settled then v s (sysProbe s w rw) else v s none
   | _ => (s, "BAD sys op")
 
+/-! ### `rdv` cases (unit level): the real rendezvous slots with a manual poll order, replayed op by op on
+`Model/Rendezvous.lean`; the slot state is compared after EVERY op -/
+
+structure RdvSt where
+  browse : Bool := false
+  st : Rendezvous.St := {}
+  now : Nat := 1000
+  /-- model side: waiter → (its time-out, the time its request was placed) -/
+  tmo : List (Nat × Nat) := []
+  placedAt : List (Nat × Nat) := []
+  /-- ORACLE side (from the implementation's outputs only): the waiter whose request went into the slot and who
+  has neither finished nor been dropped since; the waiters that are alive; what happened to the last holder -/
+  holder : Option Nat := none
+  alive : List Nat := []
+  last : String := "nobody has placed a request yet"
+
+/-- one poll of waiter `w`'s future on the model: first `wait` closure if it is still queued (`place`), then the
+`select(wait, timer)` of step 3: the answer is consumed if the slot is `Resolved` / `Found`, otherwise the timer is
+looked at (`Timer::after` was created in the poll that placed the request) -/
+def rdvPoll (r : RdvSt) (w : Nat) (first : Bool) : RdvSt × String :=
+  if r.st.queued.contains w then
+    let st' := Rendezvous.step r.st (.place w)
+    if st'.placed.contains w then ({ r with st := st', placedAt := (w, r.now) :: r.placedAt }, "placed")
+    else ({ r with st := st' }, if first then "queued" else "pending")
+  else if r.st.placed.contains w then
+    if r.st.slot = .resolved then ({ r with st := Rendezvous.step r.st (.consume w) }, "ok")
+    else
+      let t := (r.tmo.lookup w).getD 0
+      let p := (r.placedAt.lookup w).getD 0
+      if r.now ≥ p + t then ({ r with st := Rendezvous.step r.st (.timeout w) }, "err:NotFound")
+      else (r, "pending")
+  else (r, "none")
+
+def rdvModel (r : RdvSt) (w : List String) : RdvSt × String :=
+  let num (i : Nat) : Nat := ((w.getD i "").toNat?).getD 0
+  match w.getD 0 "" with
+  | "arr" =>
+    if r.st.queued.contains (num 1) || r.st.placed.contains (num 1) then (r, "none") else
+    let r1 := { r with st := Rendezvous.step r.st (.arrive (num 1)), tmo := (num 1, max (num 2) 1) :: r.tmo }
+    rdvPoll r1 (num 1) true
+  | "poll" => rdvPoll r (num 1) false
+  | "pick" => ({ r with st := Rendezvous.step r.st .pickup }, if r.st.slot = .requested then "picked" else "none")
+  | "dep" => (if w.getD 1 "" = "bad" then r else { r with st := Rendezvous.step r.st .deposit }, "ok")
+  | "drop" =>
+    if r.st.queued.contains (num 1) || r.st.placed.contains (num 1) then
+      ({ r with st := Rendezvous.step r.st (.cancel (num 1)) }, "ok")
+    else (r, "none")
+  | "t" => ({ r with now := r.now + num 1 }, "ok")
+  | _ => (r, "bad")
+
+/-- SPECIFICATION on the implementation's outputs (property text: "single-occupancy rendezvous slots are released when
+their waiter is cancelled or times out"): the waiter that holds the slot is known from the implementation's own
+answers (`placed`); once it has been dropped - in WHATEVER state the slot was: Requested, InFlight or Resolved / Found
+with the answer deposited and not yet consumed -, has timed out or has consumed its answer, the slot must be Idle
+(nobody else runs during the op, so "or owned by the next queued waiter" shows as: the next waiter that is polled
+places its request); the other slot of the node is never touched. -/
+def rdvOracle (r : RdvSt) (w : List String) (res : String) (slots : String) : RdvSt × Option String :=
+  let num (i : Nat) : Nat := ((w.getD i "").toNat?).getD 0
+  let op := w.getD 0 ""
+  let mine := if r.browse then slots.drop 1 |>.toString else slots.take 1 |>.toString
+  let other := if r.browse then slots.take 1 |>.toString else slots.drop 1 |>.toString
+  let name := if r.browse then "browse" else "resolve"
+  let wasFree := r.holder.isNone
+  -- bookkeeping from the implementation's answers
+  let r1 : RdvSt :=
+    if (op = "arr" || op = "poll") && res = "placed" then { r with holder := some (num 1), alive := (num 1) :: r.alive.erase (num 1) }
+    else if op = "arr" && res = "queued" then { r with alive := (num 1) :: r.alive }
+    else if op = "drop" && res = "ok" then
+      { r with alive := r.alive.erase (num 1),
+               holder := if r.holder = some (num 1) then none else r.holder,
+               last := if r.holder = some (num 1) then s!"waiter {num 1} was dropped (cancelled) while the slot was occupied by its request" else r.last }
+    else if op = "poll" && (res = "ok" || res.startsWith "err") then
+      { r with alive := r.alive.erase (num 1),
+               holder := if r.holder = some (num 1) then none else r.holder,
+               last := if r.holder = some (num 1) then s!"waiter {num 1} finished ({res})" else r.last }
+    else r
+  let v : Option String :=
+    if res = "panic" then some s!"`{op}` panicked"
+    else if other != "i" then some s!"the other rendezvous slot of the node changed ({slots})"
+    else if r1.holder.isNone && mine != "i" then
+      some s!"the {name} slot is '{mine}' although no waiter holds it - {r1.last}: the slot was not released, every later {name} waits for Idle for ever"
+    else if wasFree && (op = "arr" || (op = "poll" && r.alive.contains (num 1))) && (res = "queued" || res = "pending") then
+      some s!"no waiter holds the {name} slot ({r.last}), yet waiter {num 1} could not place its request ({res})"
+    else none
+  (r1, v)
+
 structure St where
   m : MSt := {}
   o : OSt := {}
   sys : Option SysSt := none
+  rdv : Option RdvSt := none
 
 def idle (s : ISess) : Bool := !s.reserved && s.live.isEmpty
 
@@ -361,8 +448,21 @@ def step (st : St) (line : String) : St × String :=
   let (op, out) := splitArrow line
   match words op with
   | "case" :: _ :: kind =>
+    if kind.head? = some "rdv" then ({ m := newCase kind, rdv := some { browse := kind.contains "browse" } }, "case") else
     ({ m := newCase kind, sys := if kind.head? = some "sys" then some ({ mdnsr := kind.contains "mdnsr=1" } : SysSt) else none }, "case")
   | w =>
+    match st.rdv with
+    | some r =>
+      let (ires, islots) := splitHash out
+      let (r', mres) := rdvModel r w
+      let mslot := r'.st.slot.name
+      let full := mres ++ " # " ++ (if r.browse then "i" ++ mslot else mslot ++ "i")
+      let (r'', ora) := rdvOracle r' w ires islots
+      let st' := { st with rdv := some r'' }
+      match ora with
+      | some why => (st', s!"ORA {why}")
+      | none => if full = ires ++ " # " ++ islots then (st', "ok") else (st', s!"DIS {full}")
+    | none =>
     match st.sys with
     | some ss => let (ss', o) := sysStep ss w out; ({ st with sys := some ss' }, o)
     | none =>
